@@ -102,7 +102,7 @@ func jvd(v *lisp.LVal, depth int) interface{} {
 		return J{"t": "qsym", "s": v.Str}
 	case lisp.LSExpr:
 		if len(v.Cells) == 0 {
-			return J{"t": "nil"}
+			return J{"t": "nil", "q": v.IsQuoted()}
 		}
 		c := make([]interface{}, len(v.Cells))
 		for i, x := range v.Cells {
